@@ -282,6 +282,15 @@ def _first_absent(ctx: Ctx, f: FuncInfo, v: ast.AST):
         return None
     g0 = gen.generators[0]
     tv = g0.target.id
+    if isinstance(gen.elt, ast.Name) and gen.elt.id != tv:
+        # `next(name for i in count() if (name := f"{base}-{i}") not in self._task_groups)`: the name is built, bound and tested in the filter
+        for c in g0.ifs:
+            if isinstance(c, ast.Compare) and len(c.ops) == 1 and isinstance(c.ops[0], ast.NotIn) and isinstance(c.left, ast.NamedExpr) \
+                    and c.left.target.id == gen.elt.id and ctx.eff.paths(f).of(c.comparators[0]) == GROUPS and len(g0.ifs) == 1:
+                src = V.resolve(f, g0.iter)
+                counts = isinstance(src, ast.Call) and ctx.an.scope(f).callee(src).name.rpartition(".")[2] == "count" and len(src.args) <= 1
+                return template(ctx, f, c.left.value), True, counts
+        return None
     if not (isinstance(gen.elt, ast.Name) and gen.elt.id == tv):
         return None
     absent = any(isinstance(c, ast.Compare) and len(c.ops) == 1 and isinstance(c.ops[0], ast.NotIn) and isinstance(c.left, ast.Name) and c.left.id == tv
